@@ -211,6 +211,12 @@ package keeper
 //@           stPending(ctx, stakerID, assetID) == old(stPending(ctx, stakerID, assetID)) + val(removeToken) &&
 //@           stWithdrawable(ctx, stakerID, assetID) == old(stWithdrawable(ctx, stakerID, assetID)) && stDeposit(ctx, stakerID, assetID) == old(stDeposit(ctx, stakerID, assetID)))
 //@   ensures[C01.rs.nonneg] err == nil ==> val(removeToken) >= 0 && val(share) > 0 && pT(ctx, operator, assetID) >= 0 && pS(ctx, operator, assetID) >= 0
+// C02 (the delegator list of an operator and asset is exactly the set of stakers with a non-zero share): whenever the
+// removal leaves the staker without shares - by an undelegation or by a balance decrease alike - the staker is taken
+// off the list, and only then.
+//@   ensures[C02.rs.list] err == nil && res_UpdateDelegationState_0 ==> defined(res_DeleteStakerForOperator_0)
+//@   before[C02.rs.list]  DeleteStakerForOperator requires res_UpdateDelegationState_0 && arg_stakerID == stakerID && arg_assetID == assetID &&
+//@        arg_operator == accstr(operator)
 
 // ---------------------------------------------------------------------------------------------
 // C03: undelegation records, their two indexes and the hold counts
@@ -446,6 +452,15 @@ package keeper
 //@        stWithdrawable(ctx, duStaker(params), duAsset(params)) >= 0
 //@   ensures[C01.dt.pool]   err == nil && !notGenesis ==> val(params.OpAmount) > 0 &&
 //@        pT(ctx, params.OperatorAddress, duAsset(params)) == old(pT(ctx, params.OperatorAddress, duAsset(params))) + val(params.OpAmount)
+// C02 (an operator's self share is the sum of the shares of its associated stakers): the pool grows by the delegated
+// amount and by the shares CalculateShare minted for it, the delegation record by the same shares, and the operator's
+// self share by the same shares exactly when the staker is associated with this operator (not at all otherwise).
+//@   before[C02.dt.shares]  UpdateOperatorAssetState requires arg_changeAmount.TotalAmount == params.OpAmount &&
+//@        arg_changeAmount.TotalShare == res_CalculateShare_0 &&
+//@        (res_GetAssociatedOperator_0 == accstr(params.OperatorAddress) ==> arg_changeAmount.OperatorShare == res_CalculateShare_0) &&
+//@        (res_GetAssociatedOperator_0 != accstr(params.OperatorAddress) ==> isnil(arg_changeAmount.OperatorShare))
+//@   before[C02.dt.record]  UpdateDelegationState requires arg_deltaAmounts != nil && arg_deltaAmounts.UndelegatableShare == res_CalculateShare_0 &&
+//@        arg_opAddr == accstr(params.OperatorAddress)
 //@   before[C01.dt.enough]  UpdateStakerAssetState requires val(res_GetStakerSpecifiedAssetInfo_0.WithdrawableAmount) >= val(params.OpAmount) && val(params.OpAmount) > 0
 
 // ---------------------------------------------------------------------------------------------
@@ -488,3 +503,23 @@ package keeper
 //@   hyp  h1 >= 0 && h2 >= 0 && n1 >= 0 && n2 >= 0 && b1 >= 0 && b2 >= 0
 //@   hyp  pendIdxKey(h1, n1) == pendIdxKey(h2, n2)
 //@   goal urKey(op1, b1, n1, tx1) == urKey(op2, b2, n2, tx2)
+
+// ---------------------------------------------------------------------------------------------
+// C09 (a message that reports failure has changed nothing): a delegation / undelegation message that names several
+// operators is applied to a cache of the context, entry by entry, and the cache is written back only after EVERY entry
+// has succeeded: while the entries are being processed the context itself stays as it was.
+//@ func (*Keeper).DelegateAssetToOperator
+//@   requires msg != nil && msg.BaseInfo != nil
+//@   flag noframe
+//@   flag pure=Logger,Info,Error,MustAccAddressFromBech32,GetSequence,TxBytes,Sum256,Sprintf,newDelegationParams
+//@   ensures[C09.dato.atomic] err != nil ==> state(unwrap_ctx(goCtx)) == old(state(unwrap_ctx(goCtx)))
+//@ loop #1
+//@   invariant[C09.dato.atomic] state(unwrap_ctx(goCtx)) == old(state(unwrap_ctx(goCtx)))
+
+//@ func (*Keeper).UndelegateAssetFromOperator
+//@   requires msg != nil && msg.BaseInfo != nil
+//@   flag noframe
+//@   flag pure=Logger,Info,Error,MustAccAddressFromBech32,GetSequence,TxBytes,Sum256,Sprintf,newDelegationParams
+//@   ensures[C09.uafo.atomic] err != nil ==> state(unwrap_ctx(goCtx)) == old(state(unwrap_ctx(goCtx)))
+//@ loop #1
+//@   invariant[C09.uafo.atomic] state(unwrap_ctx(goCtx)) == old(state(unwrap_ctx(goCtx)))
